@@ -29,7 +29,7 @@ struct Step {
     #[serde(default)]
     id: u64,
     /// block/unblock: "ready"|"flush"; break_cl: "ready"|"send"|"flush"; bad_reply: tag;
-    /// request: header class "none"|"other"|"forged"|"reqid"
+    /// request: header class "none"|"other"|"forged"|"forged_var"|"reqid"
     #[serde(default)]
     which: String,
     /// reply: index (1-based) of the received request to answer; request: 1 = fits, 0 = oversize
@@ -369,6 +369,15 @@ impl Run {
                                 let forged = g.rid.get(&other).copied().unwrap_or(other);
                                 headers = Some(HashMap::from([("cid".to_string(), forged.to_string())]));
                             }
+                            "forged_var" => {
+                                // the same claim under a name that differs from the routing tag's only in case:
+                                // an ordinary header of the requestor's, which must travel untouched and route nothing
+                                let other = others.first().copied().unwrap_or(0);
+                                let g = self.ctx.lock().unwrap();
+                                let forged = g.rid.get(&other).copied().unwrap_or(other);
+                                let key = ["CID", "Cid", "cID"][(n % 3) as usize];
+                                headers = Some(HashMap::from([(key.to_string(), forged.to_string()), ("req_id".to_string(), n.to_string())]));
+                            }
                             "reqid" => headers = Some(HashMap::from([("req_id".to_string(), n.to_string())])),
                             _ => {}
                         }
@@ -634,7 +643,7 @@ fn random_schedule(rng: &mut StdRng, k: u64, len: usize) -> Schedule {
         } else if r < 50 && ncl > 0 {
             reqs += 1;
             let id = rng.gen_range(1..=ncl);
-            let hdr = ["none", "other", "forged", "reqid"][rng.gen_range(0..4)];
+            let hdr = ["none", "other", "forged", "reqid", "forged_var"][rng.gen_range(0..5)];
             let fits = if faulty && bigs < 1 && rng.gen_bool(0.1) {
                 bigs += 1;
                 0
